@@ -16,6 +16,10 @@ package main
 // C08/alloc/rules-on/oversized-mediatype). The witnesses are pinned (c08PinnedWitnesses) and run in every
 // tier; should they violate again, the run switches to a budgeted mode (see runC08).
 //
+// CTE (stage (f), c08CteAlloc): allocation of one decode against a stated bound with a larger constant and
+// against growth of the per-byte allocation inside a family; string-like values with escapes are compared
+// with CE.Model.Cost.cte_string (CteStrRun).
+//
 // Correspondence: CE.Model.Cost (cost_case / cost_case_ok): error-or-not, len(Reader.buffer),
 // Reader.bytesRead, events delivered (exact) and TotalAlloc (bracketed by the model's
 // reader-buffer bytes below and reader+validator bytes plus slack above); for killed
@@ -70,48 +74,69 @@ const (
 // ---------------------------------------------------------------------------
 // event counter (the receiver behind the decoder / validator): counts, keeps nothing
 
-type c08Counter struct{ n uint64 }
+type c08Counter struct {
+	n   uint64
+	pay uint64 // bytes of array / string payload handed over (CTE correspondence: the value that was accumulated)
+}
 
-func (r *c08Counter) OnBeginDocument()                           { r.n++ }
-func (r *c08Counter) OnVersion(uint64)                           { r.n++ }
-func (r *c08Counter) OnComment(bool, []byte)                     { r.n++ }
-func (r *c08Counter) OnPadding()                                 { r.n++ }
-func (r *c08Counter) OnNull()                                    { r.n++ }
-func (r *c08Counter) OnBoolean(bool)                             { r.n++ }
-func (r *c08Counter) OnTrue()                                    { r.n++ }
-func (r *c08Counter) OnFalse()                                   { r.n++ }
-func (r *c08Counter) OnPositiveInt(uint64)                       { r.n++ }
-func (r *c08Counter) OnNegativeInt(uint64)                       { r.n++ }
-func (r *c08Counter) OnInt(int64)                                { r.n++ }
-func (r *c08Counter) OnBigInt(*big.Int)                          { r.n++ }
-func (r *c08Counter) OnFloat(float64)                            { r.n++ }
-func (r *c08Counter) OnBigFloat(*big.Float)                      { r.n++ }
-func (r *c08Counter) OnDecimalFloat(compact_float.DFloat)        { r.n++ }
-func (r *c08Counter) OnBigDecimalFloat(*apd.Decimal)             { r.n++ }
-func (r *c08Counter) OnNan(bool)                                 { r.n++ }
-func (r *c08Counter) OnUID([]byte)                               { r.n++ }
-func (r *c08Counter) OnTime(compact_time.Time)                   { r.n++ }
-func (r *c08Counter) OnArray(events.ArrayType, uint64, []byte)   { r.n++ }
-func (r *c08Counter) OnStringlikeArray(events.ArrayType, string) { r.n++ }
-func (r *c08Counter) OnMedia(string, []byte)                     { r.n++ }
-func (r *c08Counter) OnCustomBinary(uint64, []byte)              { r.n++ }
-func (r *c08Counter) OnCustomText(uint64, string)                { r.n++ }
-func (r *c08Counter) OnArrayBegin(events.ArrayType)              { r.n++ }
-func (r *c08Counter) OnMediaBegin(string)                        { r.n++ }
-func (r *c08Counter) OnCustomBegin(events.ArrayType, uint64)     { r.n++ }
-func (r *c08Counter) OnArrayChunk(uint64, bool)                  { r.n++ }
-func (r *c08Counter) OnArrayData([]byte)                         { r.n++ }
-func (r *c08Counter) OnList()                                    { r.n++ }
-func (r *c08Counter) OnMap()                                     { r.n++ }
-func (r *c08Counter) OnRecordType([]byte)                        { r.n++ }
-func (r *c08Counter) OnRecord([]byte)                            { r.n++ }
-func (r *c08Counter) OnEdge()                                    { r.n++ }
-func (r *c08Counter) OnNode()                                    { r.n++ }
-func (r *c08Counter) OnEndContainer()                            { r.n++ }
-func (r *c08Counter) OnMarker([]byte)                            { r.n++ }
-func (r *c08Counter) OnReferenceLocal([]byte)                    { r.n++ }
-func (r *c08Counter) OnEndDocument()                             { r.n++ }
-func (r *c08Counter) OnError()                                   {}
+func (r *c08Counter) OnBeginDocument()                    { r.n++ }
+func (r *c08Counter) OnVersion(uint64)                    { r.n++ }
+func (r *c08Counter) OnComment(bool, []byte)              { r.n++ }
+func (r *c08Counter) OnPadding()                          { r.n++ }
+func (r *c08Counter) OnNull()                             { r.n++ }
+func (r *c08Counter) OnBoolean(bool)                      { r.n++ }
+func (r *c08Counter) OnTrue()                             { r.n++ }
+func (r *c08Counter) OnFalse()                            { r.n++ }
+func (r *c08Counter) OnPositiveInt(uint64)                { r.n++ }
+func (r *c08Counter) OnNegativeInt(uint64)                { r.n++ }
+func (r *c08Counter) OnInt(int64)                         { r.n++ }
+func (r *c08Counter) OnBigInt(*big.Int)                   { r.n++ }
+func (r *c08Counter) OnFloat(float64)                     { r.n++ }
+func (r *c08Counter) OnBigFloat(*big.Float)               { r.n++ }
+func (r *c08Counter) OnDecimalFloat(compact_float.DFloat) { r.n++ }
+func (r *c08Counter) OnBigDecimalFloat(*apd.Decimal)      { r.n++ }
+func (r *c08Counter) OnNan(bool)                          { r.n++ }
+func (r *c08Counter) OnUID([]byte)                        { r.n++ }
+func (r *c08Counter) OnTime(compact_time.Time)            { r.n++ }
+func (r *c08Counter) OnArray(_ events.ArrayType, _ uint64, d []byte) {
+	r.n++
+	r.pay += uint64(len(d))
+}
+func (r *c08Counter) OnStringlikeArray(_ events.ArrayType, d string) {
+	r.n++
+	r.pay += uint64(len(d))
+}
+func (r *c08Counter) OnMedia(_ string, d []byte) {
+	r.n++
+	r.pay += uint64(len(d))
+}
+func (r *c08Counter) OnCustomBinary(_ uint64, d []byte) {
+	r.n++
+	r.pay += uint64(len(d))
+}
+func (r *c08Counter) OnCustomText(_ uint64, d string) {
+	r.n++
+	r.pay += uint64(len(d))
+}
+func (r *c08Counter) OnArrayBegin(events.ArrayType)          { r.n++ }
+func (r *c08Counter) OnMediaBegin(string)                    { r.n++ }
+func (r *c08Counter) OnCustomBegin(events.ArrayType, uint64) { r.n++ }
+func (r *c08Counter) OnArrayChunk(uint64, bool)              { r.n++ }
+func (r *c08Counter) OnArrayData(d []byte) {
+	r.n++
+	r.pay += uint64(len(d))
+}
+func (r *c08Counter) OnList()                 { r.n++ }
+func (r *c08Counter) OnMap()                  { r.n++ }
+func (r *c08Counter) OnRecordType([]byte)     { r.n++ }
+func (r *c08Counter) OnRecord([]byte)         { r.n++ }
+func (r *c08Counter) OnEdge()                 { r.n++ }
+func (r *c08Counter) OnNode()                 { r.n++ }
+func (r *c08Counter) OnEndContainer()         { r.n++ }
+func (r *c08Counter) OnMarker([]byte)         { r.n++ }
+func (r *c08Counter) OnReferenceLocal([]byte) { r.n++ }
+func (r *c08Counter) OnEndDocument()          { r.n++ }
+func (r *c08Counter) OnError()                {}
 
 // ---------------------------------------------------------------------------
 // jobs and results
@@ -128,7 +153,10 @@ type c08Job struct {
 	Count    int
 	Suffix   []byte
 	Reps     int // the decode is repeated Reps times (>=1); CPU time = minimum
+	noWarm   bool
 }
+
+const c08WarmUnits = 64
 
 func (j c08Job) doc() []byte {
 	out := make([]byte, 0, len(j.Prefix)+len(j.Unit)*j.Count+len(j.Suffix))
@@ -148,6 +176,7 @@ type c08Res struct {
 	Buf    uint64 // len(Reader.buffer) after the decode (cbe only)
 	Nread  uint64 // Reader.bytesRead (cbe only)
 	Nev    uint64 // events delivered to the counter
+	Pay    uint64 // array / string payload bytes delivered to the counter
 	Alloc  uint64 // TotalAlloc delta around the (first) decode
 	CPU    uint64 // ns, minimum over the repetitions
 	Base   uint64 // VmSize of the child before its first job
@@ -177,6 +206,17 @@ func c08CPU() uint64 {
 
 // c08Measure performs the decode(s) in THIS process. Only the worker calls it on untrusted documents.
 func c08Measure(j c08Job) (r c08Res) {
+	if j.Format == "cte" && !j.noWarm {
+		// The ANTLR runtime builds its prediction tables lazily and keeps them for the life of the process: a
+		// one-time cost bounded by the grammar, not a cost of the document. A small member of the same shape is
+		// decoded first (not measured) so that the measurement below is the document's own cost.
+		w := j
+		w.noWarm, w.Reps = true, 1
+		if w.Count > c08WarmUnits {
+			w.Count = c08WarmUnits
+		}
+		c08Measure(w)
+	}
 	doc := j.doc()
 	reps := j.Reps
 	if reps < 1 {
@@ -213,6 +253,7 @@ func c08Measure(j c08Job) (r c08Res) {
 		if i == 0 {
 			r.Err = err != nil
 			r.Nev = cnt.n
+			r.Pay = cnt.pay
 			r.Alloc = m1.TotalAlloc - m0.TotalAlloc
 			r.CPU = cpu
 			if cdec != nil {
@@ -250,7 +291,7 @@ func c08VmSize() uint64 {
 //
 //	<format> <rules 0|1> <maxArray> <maxDoc> <reps> <count> <hex prefix|-> <hex unit|-> <hex suffix|->
 //
-// answer: "r <err 0|1> <buf> <nread> <nev> <alloc> <cpu>"; first line of the child: "base <VmSize>"
+// answer: "r <err 0|1> <buf> <nread> <nev> <alloc> <cpu> <payload>"; first line of the child: "base <VmSize>"
 func c08Worker() {
 	runtime.LockOSThread()
 	memCap := uint64(4 << 30)
@@ -291,7 +332,7 @@ func c08Worker() {
 				if r.Err {
 					e = 1
 				}
-				fmt.Fprintf(out, "r %d %d %d %d %d %d\n", e, r.Buf, r.Nread, r.Nev, r.Alloc, r.CPU)
+				fmt.Fprintf(out, "r %d %d %d %d %d %d %d\n", e, r.Buf, r.Nread, r.Nev, r.Alloc, r.CPU, r.Pay)
 				if r.Retire {
 					fmt.Fprintf(out, "bye\n")
 					out.Flush()
@@ -376,7 +417,7 @@ func c08RunChild(jobs []c08Job, memCap uint64, timeout time.Duration) []c08Res {
 					retired = true
 					break batch
 				}
-				if len(f) != 7 || f[0] != "r" {
+				if len(f) != 8 || f[0] != "r" {
 					panic("c08-worker: bad answer " + line)
 				}
 				r := c08Res{Err: f[1] == "1", Base: base}
@@ -385,6 +426,7 @@ func c08RunChild(jobs []c08Job, memCap uint64, timeout time.Duration) []c08Res {
 				r.Nev, _ = strconv.ParseUint(f[4], 10, 64)
 				r.Alloc, _ = strconv.ParseUint(f[5], 10, 64)
 				r.CPU, _ = strconv.ParseUint(f[6], 10, 64)
+				r.Pay, _ = strconv.ParseUint(f[7], 10, 64)
 				res[next] = r
 				next++
 			case <-time.After(timeout):
@@ -663,7 +705,7 @@ type c08Item struct {
 }
 
 func runC08(c *Ctx) {
-	c.Rep.Rule = "CBE documents decoded one per measurement in a child process under an address-space cap, rules on/off x MaxArraySizeBytes in {4 KiB, 1 MiB, 16 MiB, 1 GiB default}: (a) encoder outputs of generated rules-valid streams and byte mutations of them, (b) an oversized announced length in every kind of length field (array chunk headers of every array type, second chunk, media type, media data, identifiers, integer length) x sizes around the limit and around 2^16..2^63 x structural positions (top, list, map key/value, depth 40, after an array, marked), (c) honest large members (lengths satisfied), (d) nested-container runs and many-tiny-token families with a doubling experiment for CPU time, (e) CTE families measured only (allocation per byte, time slope). Non-trivial = the document announces more than it carries, or is at least 1 KiB; distinct = distinct (configuration, document)"
+	c.Rep.Rule = "CBE documents decoded one per measurement in a child process under an address-space cap, rules on/off x MaxArraySizeBytes in {4 KiB, 1 MiB, 16 MiB, 1 GiB default}: (a) encoder outputs of generated rules-valid streams and byte mutations of them, (b) an oversized announced length in every kind of length field (array chunk headers of every array type, second chunk, media type, media data, identifiers, integer length) x sizes around the limit and around 2^16..2^63 x structural positions (top, list, map key/value, depth 40, after an array, marked), (c) honest large members (lengths satisfied), (d) nested-container runs and many-tiny-token families with a doubling experiment for CPU time, (e) CTE time families measured only (time slope), (f) CTE allocation of one decode (rules on, MaxArraySizeBytes 1 MiB) held to 2048*len + 2*MaxArraySizeBytes + 4 MiB and to 'the largest member allocates at most twice as much per document byte as the 2 KiB member': families of documents dominated by one long value at 2..32 KiB (thorough: ..64 KiB): every string-like kind (string, resource ID, remote reference, custom text, media text) x every escape form of the grammar (each escape character, code point escapes of 1-4 UTF-8 bytes / invalid / leading zeros, continuations, verbatim sequences, a mix, none) x distance between escapes 0..48 characters x position (top level, list, map value, after other values, marked, after comments), typed arrays of every element type and radix, custom / media binary, comments, long numbers, many tiny tokens of every kind, nesting; top-level string-likes are compared with the model's accumulation of the value (CteStrRun: error, events, value length exact; TotalAlloc bracketed). Non-trivial = the document announces more than it carries, or is at least 1 KiB; distinct = distinct (configuration, document)"
 	cf := c.Cases("cost", "CE.Model.Cost", "cost_case", "cost_case_ok")
 	cf.perFile = 250
 	t0 := time.Now()
@@ -990,6 +1032,10 @@ func runC08(c *Ctx) {
 	c08TimeExperiments(c)
 	c.Rep.Extra["alloc_stage_s"] = tAlloc.Seconds()
 	c.Rep.Extra["time_stage_s"] = time.Since(tT).Seconds()
+	// (f) CTE allocation
+	tC := time.Now()
+	c08CteAlloc(c)
+	c.Rep.Extra["cte_alloc_stage_s"] = time.Since(tC).Seconds()
 	c.Rep.Extra["alloc_jobs"] = len(items)
 	c.Rep.Extra["children_died"] = killed
 	c.Rep.Extra["max_alloc_over_bound_surviving"] = maxRatio
@@ -1324,6 +1370,413 @@ func c08TimeExperiments(c *Ctx) {
 }
 
 // ---------------------------------------------------------------------------
+// (f) CTE: allocation of ONE decode. The CTE decoder is held to the same kind of bound as the CBE decoder,
+//     alloc <= c08KCte*len + 2*MaxArraySizeBytes + c08C0Cte
+// with a larger (stated) constant: the ANTLR front end keeps a token and a parse-tree node per character (about
+// 0.3-0.5 KiB per document byte on the unchanged tree). Every family is a document dominated by ONE long value
+// (or one long run of tokens) at doubling sizes, decoded under a small MaxArraySizeBytes so that the limit term
+// does not hide anything; besides the absolute bound the allocation PER DOCUMENT BYTE of the largest member
+// must not exceed twice that of the 2 KiB member ("a fixed multiple of the document's length").
+// String-like values (string, resource ID, remote reference, custom text, media text) are crossed with every
+// escape form of the grammar x the distance between escapes x position; top-level members inside the
+// alphabet of CE.Model.Cost.cte_pieces are compared with the model as well (CteStrRun).
+
+const (
+	c08KCte      = 2048
+	c08C0Cte     = 4 << 20
+	c08CteMaxArr = 1 << 20
+	c08CteRefLen = 2048 // the member the per-byte growth is measured against is the first of at least this length
+)
+
+type c08CteFam struct {
+	name     string // <group>/<shape>
+	group    string // failure-key class
+	prefix   []byte
+	unit     []byte
+	suffix   []byte
+	open     int    // > 0: top-level string-like value whose body starts at doc[open] (compared with the model)
+	inner    []byte // nesting families: suffix = inner + closer * units
+	closer   []byte
+	maxUnits int // > 0: no member has more units than this
+	maxLen   int // > 0: no member is longer than this many bytes
+}
+
+var c08CteStrKinds = []struct{ name, open string }{
+	{"string", `"`}, {"rid", `@"`}, {"remote-ref", `$"`}, {"custom-text", `@7"`}, {"media-text", `@a/b"`},
+}
+
+// every escape form of MODE_STRING_ESCAPE (codegen/cte/CTELexer.g4)
+var c08CteEscapes = []struct {
+	name, src string
+	model     bool // inside the model's alphabet (verbatim sequences are not)
+}{
+	{"none", "", true},
+	{"lf", `\n`, true}, {"LF", `\N`, true}, {"tab", `\t`, true}, {"cr", `\r`, true}, {"quote", `\"`, true}, {"star", `\*`, true},
+	{"slash", `\/`, true}, {"backslash", `\\`, true}, {"shy", `\-`, true}, {"nbsp", `\_`, true},
+	{"cp-1byte", `\[41]`, true}, {"cp-2byte", `\[e9]`, true}, {"cp-3byte", `\[4E2D]`, true}, {"cp-4byte", `\[1f600]`, true},
+	{"cp-leading-zeros", `\[00000041]`, true}, {"cp-surrogate", `\[d800]`, true}, {"cp-beyond-unicode", `\[110000]`, true},
+	{"continuation", "\\\n  \t", true}, {"continuation-crlf", "\\\r\n", true},
+	{"verbatim", `\.# xyz#`, false}, {"verbatim-empty", `\.# #`, false}, {"verbatim-long-sentinel", "\\.END\nxy zEND", false},
+	{"mixed", "", true},
+}
+
+func c08CteWrap(pos string, open string) (prefix, suffix []byte) {
+	switch pos {
+	case "top":
+		return []byte("c0\n" + open), []byte(`"`)
+	case "list":
+		return []byte("c0\n[1 " + open), []byte(`" 2]`)
+	case "mapval":
+		return []byte("c0\n{\"k\"=" + open), []byte(`"}`)
+	case "second": // the listener's buffer has been used by an earlier value
+		return []byte("c0\n[\"" + strings.Repeat("earlier ", 40) + "\" @u8x[01 02 03] " + open), []byte(`"]`)
+	case "marked":
+		return []byte("c0\n[&m:" + open), []byte(`" $m]`)
+	case "commented":
+		return []byte("c0\n/* a comment */\n// another\n" + open), []byte("\"\n \t\n")
+	}
+	panic("bad position " + pos)
+}
+
+var c08CtePositions = []string{"list", "mapval", "second", "marked", "commented"}
+
+func c08CteFamilies(c *Ctx) []c08CteFam {
+	fs := []c08CteFam{}
+	fillers := []string{"abcdefghijklmnopqrstuvwxyzABCDEFGHIJKLMNOPQRSTUVWXYZ0123456789 .,;:!?()[]{}<>=+-_#%&'|~^`@$", "é中ö日本語ΑΒΓ"}
+	filler := func(n int) string {
+		out := []rune{}
+		src := []rune(fillers[0])
+		if c.Rng.Intn(4) == 0 {
+			src = append(src, []rune(fillers[1])...)
+		}
+		off := c.Rng.Intn(len(src))
+		for i := 0; i < n; i++ {
+			out = append(out, src[(off+i*7)%len(src)])
+		}
+		return string(out)
+	}
+	spacings := []int{0, 1, 3, 8, 20, 48}
+	if c.Thorough() {
+		spacings = append(spacings, 128)
+	}
+	for _, k := range c08CteStrKinds {
+		for _, e := range c08CteEscapes {
+			sps := spacings
+			if !c.Thorough() {
+				// quick: one of the distances per (kind, escape)
+				sps = []int{spacings[c.Rng.Intn(len(spacings))]}
+			}
+			for si, sp := range sps {
+				if e.name == "none" && sp == 0 {
+					sp = 10
+				}
+				unit := ""
+				if e.name == "mixed" {
+					for _, e2 := range c08CteEscapes {
+						if e2.src != "" && e2.model {
+							unit += filler(sp) + e2.src
+						}
+					}
+					unit += "x" // a continuation swallows white space: the unit must not start with any after one
+				} else {
+					f := filler(sp)
+					if strings.HasPrefix(e.name, "continuation") || strings.HasPrefix(e.name, "verbatim") {
+						f = strings.TrimLeft(f, " ") + "x"
+					}
+					unit = f + e.src
+				}
+				// top level (compared with the model) or one of the other positions
+				pos := "top"
+				if (si+len(fs))%2 == 1 {
+					pos = c08CtePositions[c.Rng.Intn(len(c08CtePositions))]
+					if pos == "marked" && k.name == "remote-ref" {
+						pos = "list" // a remote reference cannot be marked
+					}
+				}
+				prefix, suffix := c08CteWrap(pos, k.open)
+				fam := c08CteFam{name: fmt.Sprintf("stringlike/%s/%s/every-%d/%s", k.name, e.name, sp, pos), group: "stringlike-" + k.name, prefix: prefix, unit: []byte(unit), suffix: suffix}
+				if pos == "top" && e.model {
+					fam.open = len(prefix)
+				}
+				if strings.HasPrefix(e.name, "verbatim") {
+					// the lexer's sentinel predicates make verbatim sequences expensive in TIME (reported by the time
+					// stage's policy for CTE: measured only); the members stay small
+					fam.maxLen = c.Pick(8<<10, 16<<10)
+				}
+				fs = append(fs, fam)
+			}
+		}
+	}
+	add := func(group, shape, prefix, unit, suffix string) {
+		fs = append(fs, c08CteFam{name: group + "/" + shape, group: group + "/" + shape, prefix: []byte("c0\n" + prefix), unit: []byte(unit), suffix: []byte(suffix)})
+	}
+	// one long typed array / binary blob
+	add("typed-array", "u8x", "@u8x[", "ff ", "]")
+	add("typed-array", "u8", "@u8[", "255 ", "]")
+	add("typed-array", "u8b", "@u8b[", "10101010 ", "]")
+	add("typed-array", "i8o", "@i8o[", "-177 ", "]")
+	add("typed-array", "i16", "@i16[", "-12345 0x7fff ", "]")
+	add("typed-array", "u16x", "@u16x[", "ffff ", "]")
+	add("typed-array", "i32", "@i32[", "-2147483648 ", "]")
+	add("typed-array", "u32b", "@u32b[", "1 ", "]")
+	add("typed-array", "i64x", "@i64x[", "-7fffffffffffffff ", "]")
+	add("typed-array", "u64", "@u64[", "18446744073709551615 ", "]")
+	add("typed-array", "f16", "@f16[", "1.5 ", "]")
+	add("typed-array", "f32", "@f32[", "-1.25e10 nan inf ", "]")
+	add("typed-array", "f32x", "@f32x[", "1.8p3 ", "]")
+	add("typed-array", "f64", "@f64[", "3.141592653589793 ", "]")
+	add("typed-array", "f64x", "@f64x[", "-1.fp-10 snan ", "]")
+	add("typed-array", "bit", "@b[", "1011001110001111 ", "]")
+	add("typed-array", "bit-unbroken", "@b[", "1", "]")
+	add("typed-array", "uid", "@uid[", "01234567-89ab-cdef-0123-456789abcdef ", "]")
+	add("binary", "custom", "@7[00", " ab", "]")
+	add("binary", "media", "@application/x-thing[00", "\nab", "]")
+	// comments
+	add("comment", "one-block", "/* ", "comment text ", "*/ 1")
+	add("comment", "one-line", "// ", "comment text ", "\n1")
+	add("comment", "many-lines", "", "// c\n", "1")
+	add("comment", "many-blocks", "", "/* c */ ", "1")
+	add("comment", "in-list", "[", "1 /* c */ ", "]")
+	// one long number
+	add("number", "decimal-int", "1", "0", "")
+	add("number", "hex-int", "-0xf", "f", "")
+	add("number", "binary-int", "0b1", "01", "")
+	add("number", "decimal-fraction", "1.", "7", "")
+	add("number", "hex-float", "0x1.", "a", "p10")
+	// many tiny tokens
+	add("tokens", "ints", "[", "1 ", "]")
+	add("tokens", "nulls-bools", "[", "null true false ", "]")
+	add("tokens", "floats-times", "[", "1.5 2000-01-01 12:00:00 ", "]")
+	add("tokens", "uids", "[", "01234567-89ab-cdef-0123-456789abcdef ", "]")
+	add("tokens", "short-strings", "[", `"ab" `, "]")
+	add("tokens", "short-escaped-strings", "[", `"a\nb\t\[41]" `, "]")
+	add("tokens", "short-rids", "[", `@"a:b" `, "]")
+	add("tokens", "short-arrays", "[", `@u8x[01 02] @b[101] `, "]")
+	add("tokens", "map-pairs", "[", "{1=2} ", "]")
+	add("tokens", "map-string-keys", "{", "", "}") // filled per member (distinct keys)
+	add("tokens", "empty-containers", "[", "[] {} ", "]")
+	add("tokens", "nodes-edges", "[", "(1 2 3) @(1 2 3) ", "]")
+	add("tokens", "references", "[&m:\"marked\" ", "$m ", "]")
+	add("tokens", "records", "@r<a b c>\n[", "@r{1 2 3} ", "]")
+	add("tokens", "white-space", "[", "  \n\t ", "1]")
+	// nesting: the recursive-descent parser limits the depth (a few thousand levels), so these families stay small
+	nest := func(shape, unit, inner, closer string) {
+		fs = append(fs, c08CteFam{name: "nesting/" + shape, group: "nesting", prefix: []byte("c0\n"), unit: []byte(unit), inner: []byte(inner), closer: []byte(closer), maxUnits: 2048})
+	}
+	nest("lists", "[", "", "]")
+	nest("maps", "{1=", "2", "}")
+	nest("nodes", "(1 ", "2", ")")
+	nest("list-of-map", "[{1=", "2", "}]")
+	return fs
+}
+
+func c08CteJob(f c08CteFam, units int) c08Job {
+	j := c08Job{Format: "cte", Rules: true, MaxArray: c08CteMaxArr, Reps: 1, Prefix: f.prefix, Unit: f.unit, Count: units, Suffix: f.suffix}
+	switch {
+	case f.name == "tokens/map-string-keys":
+		b := append([]byte{}, f.prefix...)
+		for i := 0; i < units; i++ {
+			b = append(b, fmt.Sprintf("\"k%d\"=%d ", i, i%10)...)
+		}
+		j.Prefix, j.Unit, j.Count = b, nil, 0
+	case f.closer != nil:
+		j.Suffix = cat(f.inner, bytes.Repeat(f.closer, units))
+	}
+	return j
+}
+
+// units of the members of a family: documents of about 2, 8, 32 KiB (quick) / 2, 4, 8 ... 64 KiB (thorough)
+func c08CteMembers(c *Ctx, f c08CteFam) []int {
+	ul := len(f.unit)
+	if f.name == "tokens/map-string-keys" {
+		ul = 10
+	}
+	ul += len(f.closer)
+	out := []int{}
+	if f.closer != nil {
+		return []int{512, 1024, 2048}
+	}
+	for target := c08CteRefLen; target <= c.Pick(1<<15, 1<<16); target *= c.Pick(4, 2) {
+		n := (target + ul - 1) / ul
+		if (f.maxUnits > 0 && n > f.maxUnits) || (f.maxLen > 0 && target > f.maxLen) {
+			break
+		}
+		out = append(out, n)
+	}
+	return out
+}
+
+// Families on which the UNCHANGED tree (/repo afaa1e5) already shows allocation growing faster than the document.
+// They are measured and reported (distribution bucket "cte-alloc/reported-only/...", Extra "cte_alloc_families")
+// but do not fail the check: the decision between a fix and a known finding is the lead's. Witnesses:
+//   - one long number: `c0 1000...0` of 64 KiB allocates 158 bytes per byte, the 2 KiB one 18 (doubling the
+//     document doubles the per-byte cost: quadratic; hex / binary integers and float spellings alike);
+//   - a record type followed by a list of records (`c0 @r<a b c> [@r{1 2 3} ...]`, refused by the rules):
+//     490 MB for a 64 KiB document (7475 per byte), 1.3 MB for a 2 KiB one (631 per byte).
+var c08CteReportedOnly = []string{}
+
+func c08CteIsReportedOnly(name string) bool {
+	for _, p := range c08CteReportedOnly {
+		if strings.HasPrefix(name, p) {
+			return true
+		}
+	}
+	return false
+}
+
+func c08CteBound(j c08Job) uint64 { return c08KCte*uint64(j.docLen()) + 2*j.MaxArray + c08C0Cte }
+
+const c08CteExpectBound = "CTE decode allocates at most 2048*len + 2*MaxArraySizeBytes + 4 MiB"
+const c08CteExpectGrowth = "allocation per document byte does not grow with the document: the largest member of a family needs at most twice the per-byte allocation of its 2 KiB member"
+
+// verdict on one member against the absolute bound
+func c08CteVerdict(j c08Job, r c08Res) (bool, string) {
+	if r.Killed {
+		return false, "decode did not return: " + r.Note
+	}
+	if b := c08CteBound(j); r.Alloc > b {
+		return false, fmt.Sprintf("allocated %d bytes for a %d-byte document = %d per byte (bound %d)", r.Alloc, j.docLen(), r.Alloc/uint64(j.docLen()), b)
+	}
+	return true, fmt.Sprintf("allocated %d bytes for a %d-byte document", r.Alloc, j.docLen())
+}
+
+// verdict on the growth between the reference member and a larger one
+func c08CteGrowth(jr c08Job, rr c08Res, jl c08Job, rl c08Res) (bool, string) {
+	if rr.Killed || rl.Killed || jr.docLen() == 0 || jl.docLen() <= jr.docLen() {
+		return true, "not judged"
+	}
+	pr := float64(rr.Alloc) / float64(jr.docLen())
+	pl := float64(rl.Alloc) / float64(jl.docLen())
+	detail := fmt.Sprintf("%d-byte member: %d bytes allocated = %.0f per byte; %d-byte member: %d = %.0f per byte", jr.docLen(), rr.Alloc, pr, jl.docLen(), rl.Alloc, pl)
+	return pl <= 2*pr, detail
+}
+
+// replay input of a member; ref (optional) is the reference member of a growth verdict
+func c08CteReplayInput(f c08CteFam, j c08Job, ref *c08Job) map[string]string {
+	m := map[string]string{"family": f.name, "prefix_hex": hex.EncodeToString(j.Prefix), "unit_hex": hex.EncodeToString(j.Unit), "suffix_hex": hex.EncodeToString(j.Suffix),
+		"count": fmt.Sprint(j.Count), "max_array": fmt.Sprint(j.MaxArray)}
+	if ref != nil {
+		m["ref_prefix_hex"], m["ref_suffix_hex"], m["ref_count"] = hex.EncodeToString(ref.Prefix), hex.EncodeToString(ref.Suffix), fmt.Sprint(ref.Count)
+	}
+	return m
+}
+
+// code points of a body as a Coq term: (lrep unit count ++ tail)
+func c08CodepointsTerm(b []byte) string {
+	items := []string{}
+	for _, r := range string(b) {
+		items = append(items, fmt.Sprint(int(r)))
+	}
+	return "[" + strings.Join(items, ";") + "]"
+}
+
+func c08CteAlloc(c *Ctx) {
+	cf := c.Cases("ctecost", "CE.Model.Cost", "cost_case", "cost_case_ok")
+	cf.perFile = 40
+	fams := c08CteFamilies(c)
+	type member struct {
+		fam   int
+		units int
+	}
+	jobs := []c08Job{}
+	ms := []member{}
+	for fi, f := range fams {
+		for _, n := range c08CteMembers(c, f) {
+			jobs = append(jobs, c08CteJob(f, n))
+			ms = append(ms, member{fi, n})
+		}
+	}
+	// interleave so that every child gets a mix of small and large members
+	order := c.Rng.Perm(len(jobs))
+	shuffled := make([]c08Job, len(jobs))
+	for k, i := range order {
+		shuffled[k] = jobs[i]
+	}
+	rs0 := c08Parallel(shuffled, 6<<30, 120*time.Second, 12)
+	rs := make([]c08Res, len(jobs))
+	for k, i := range order {
+		rs[i] = rs0[k]
+	}
+	report := map[string]interface{}{}
+	maxPerByte, maxGrowth := 0.0, 0.0
+	maxPerByteFam, maxGrowthFam := "", ""
+	for fi, f := range fams {
+		idx := []int{}
+		for i, m := range ms {
+			if m.fam == fi {
+				idx = append(idx, i)
+			}
+		}
+		lens, allocs, errs, cpus := []int{}, []uint64{}, []bool{}, []uint64{}
+		ref := -1
+		for _, i := range idx {
+			j, r := jobs[i], rs[i]
+			lens = append(lens, j.docLen())
+			allocs = append(allocs, r.Alloc)
+			errs = append(errs, r.Err)
+			cpus = append(cpus, r.CPU/1000000)
+			c.Count(fmt.Sprintf("cte-alloc/%s/%d", f.name, ms[i].units), j.docLen() >= 1024)
+			c.Dist("cte-alloc/group=" + f.group)
+			outc := "ok"
+			if r.Killed {
+				outc = "died"
+			} else if r.Err {
+				outc = "error"
+			}
+			c.Dist("cte-alloc/outcome=" + outc)
+			if ref < 0 && j.docLen() >= c08CteRefLen && !r.Killed {
+				ref = i
+			}
+			if !r.Killed {
+				if pb := float64(r.Alloc) / float64(j.docLen()); pb > maxPerByte && j.docLen() >= c08CteRefLen {
+					maxPerByte, maxPerByteFam = pb, f.name
+				}
+			}
+			if ok, detail := c08CteVerdict(j, r); !ok && c08CteIsReportedOnly(f.name) {
+				c.Dist("cte-alloc/reported-only/bound-exceeded/" + f.name)
+			} else if !ok {
+				c.Fail(Replay{Kind: "cte-alloc", Key: "C08/cte-alloc/bound/" + f.group, Input: c08CteReplayInput(f, j, nil), Expect: c08CteExpectBound, Got: detail})
+			}
+			// correspondence with the model: top-level string-like values inside its alphabet
+			if f.open > 0 && !r.Killed && j.docLen() <= 33<<10 { // larger members: oracle only (keeps the case files small)
+				body := c08CodepointsTerm(f.unit)
+				term := cApp("CteStrRun", cN(j.MaxArray), cN(uint64(j.docLen())),
+					fmt.Sprintf("(%s ++ lrep %s %d ++ %s)", c08CodepointsTerm(f.prefix[f.open:]), body, j.Count, c08CodepointsTerm(f.suffix)),
+					cBool(r.Err), cN(r.Nev), cN(r.Pay), cN(r.Alloc))
+				cf.Add(term, fmt.Sprintf("cte %s x %d units (%d bytes) -> err=%v nev=%d payload=%d alloc=%d", f.name, j.Count, j.docLen(), r.Err, r.Nev, r.Pay, r.Alloc))
+				c.Dist("cte-alloc/compared-with-model")
+			}
+		}
+		if ref >= 0 {
+			last := idx[len(idx)-1]
+			if last != ref {
+				ok, detail := c08CteGrowth(jobs[ref], rs[ref], jobs[last], rs[last])
+				if !rs[last].Killed {
+					g := (float64(rs[last].Alloc) / float64(jobs[last].docLen())) / (float64(rs[ref].Alloc) / float64(jobs[ref].docLen()))
+					if g > maxGrowth {
+						maxGrowth, maxGrowthFam = g, f.name
+					}
+				}
+				if !ok && c08CteIsReportedOnly(f.name) {
+					c.Dist("cte-alloc/reported-only/per-byte-growth/" + f.name)
+				} else if !ok {
+					c.Fail(Replay{Kind: "cte-alloc", Key: "C08/cte-alloc/growth/" + f.group, Input: c08CteReplayInput(f, jobs[last], &jobs[ref]), Expect: c08CteExpectGrowth, Got: detail})
+				}
+			}
+		}
+		if len(c.Rep.Samples) < 8 && fi%41 == 0 && len(idx) > 0 {
+			last := idx[len(idx)-1]
+			c.Sample(map[string]string{"family": "cte-alloc/" + f.name, "doc_prefix": c08Trunc(string(jobs[last].doc()[:min(len(jobs[last].doc()), 120)])), "doc_bytes": fmt.Sprint(lens), "alloc_bytes": fmt.Sprint(allocs)})
+		}
+		report[f.name] = map[string]interface{}{"doc_bytes": lens, "alloc_bytes": allocs, "err": errs, "cpu_ms": cpus}
+	}
+	c.Rep.Extra["cte_alloc_families"] = report
+	c.Rep.Extra["cte_alloc_bound"] = fmt.Sprintf("%d*len + 2*MaxArraySizeBytes + %d (MaxArraySizeBytes = %d)", c08KCte, c08C0Cte, c08CteMaxArr)
+	c.Rep.Extra["cte_alloc_max_per_byte"] = fmt.Sprintf("%.0f (%s)", maxPerByte, maxPerByteFam)
+	c.Rep.Extra["cte_alloc_max_growth_of_per_byte"] = fmt.Sprintf("%.2f (%s)", maxGrowth, maxGrowthFam)
+}
+
+// ---------------------------------------------------------------------------
 // replay
 
 func replayC08(r *Replay) (bool, string) {
@@ -1341,6 +1794,24 @@ func replayC08(r *Replay) (bool, string) {
 		j := c08Job{Format: "cbe", Rules: r.Input["rules"] == "true", MaxArray: ma, Prefix: doc, Reps: 1}
 		res := c08RunChild([]c08Job{j}, capv, 60*time.Second)[0]
 		return c08Verdict(j, res, capv)
+	case "cte-alloc":
+		unhex := func(k string) []byte { b, _ := hex.DecodeString(r.Input[k]); return b }
+		ma, _ := strconv.ParseUint(r.Input["max_array"], 10, 64)
+		n, _ := strconv.Atoi(r.Input["count"])
+		j := c08Job{Format: "cte", Rules: true, MaxArray: ma, Prefix: unhex("prefix_hex"), Unit: unhex("unit_hex"), Count: n, Suffix: unhex("suffix_hex"), Reps: 1}
+		if j.docLen() == 0 {
+			return false, "bad replay input"
+		}
+		res := c08RunChild([]c08Job{j}, 6<<30, 600*time.Second)[0]
+		ok, detail := c08CteVerdict(j, res)
+		if _, growth := r.Input["ref_count"]; growth && ok {
+			jr := j
+			jr.Prefix, jr.Suffix = unhex("ref_prefix_hex"), unhex("ref_suffix_hex")
+			jr.Count, _ = strconv.Atoi(r.Input["ref_count"])
+			rr := c08RunChild([]c08Job{jr}, 6<<30, 600*time.Second)[0]
+			ok, detail = c08CteGrowth(jr, rr, j, res)
+		}
+		return ok, detail
 	case "time":
 		lo, _ := strconv.Atoi(r.Input["lo"])
 		hi, _ := strconv.Atoi(r.Input["hi"])
